@@ -261,4 +261,25 @@ theorem open_table (vf mf : Bool) (walMax dbMax : Nat) :
          ("readMark.Done", max walMax dbMax), ("commitMark.Done", max walMax dbMax), ("go db.run", 0)]) := by
   cases vf <;> cases mf <;> rfl
 
+/-- the translated `memtable.set`: every entry of the batch goes into the skiplist, then the WHOLE batch is handed to the wal
+    in ONE `Write` call (`WalTie`: one write to the file, one fsync); a frozen memtable or a failed wal write panics -/
+theorem memtableSet_table {ε : Type} (ro wf : Bool) (es : List ε) :
+    GenDB.memtableSet ro wf es [] =
+      if ro then none else if wf then none else some (es.map (fun e => ("skiplist.Set", [e])) ++ [("wal.Write", es)]) := by
+  unfold GenDB.memtableSet
+  have h1 : ∀ (k : List (String × List ε) → Option (List (String × List ε))) (l : List ε) (ev : List (String × List ε)),
+      List.foldr (fun entry kont4 => fun (ev : List (String × List ε)) => kont4 (ev ++ [("skiplist.Set", [entry])])) k l ev =
+        k (ev ++ l.map (fun e => ("skiplist.Set", [e]))) := by
+    intro k l
+    induction l with
+    | nil => intro ev; simp
+    | cons e l ih => intro ev; simp only [List.foldr_cons, List.map_cons]; rw [ih]; simp
+  have h2 : ∀ (l : List ε) (ev : List (String × List ε)),
+      List.foldr (fun (entry : ε) kont6 => fun (ev : List (String × List ε)) => kont6 ev) (fun ev => some ev) l ev = some ev := by
+    intro l
+    induction l with
+    | nil => intro ev; rfl
+    | cons e l ih => intro ev; simp only [List.foldr_cons]; exact ih ev
+  cases ro <;> cases wf <;> simp only [Bool.false_eq_true, ↓reduceIte, h1, h2, List.nil_append]
+
 end DBTie
